@@ -60,6 +60,50 @@ Theorem C10_open_never_upgrades : forall m w,
 Proof. exact open_never_upgrades. Qed.
 Print Assumptions C10_open_never_upgrades.
 
+(* CONSTRUCTOR MODE.  Workspace.open(mode) uses the mode it is given and never stores it: after ANY history (explicit re-opens
+   included) the constructor's mode is what it was, so a bare open() of a workspace built with mode "r" asks for "r". *)
+Theorem C10_ctor_mode_invariant : forall ops w, defmode (fst (run ops w)) = defmode w.
+Proof. exact ctor_mode_invariant_proof. Qed.
+Print Assumptions C10_ctor_mode_invariant.
+
+(* WRITABLE ONLY ON REQUEST.  In ANY history of a workspace built with mode "r" (table calls; close's final save not failing),
+   a step that turns a non-writable handle into a writable one is an explicit open(mode) with a writable mode.  In particular
+   bare open(), open("r"), save_as, the helpers and fetch_active_workspace (any mode: a writable request ends closed) never do. *)
+Theorem C10_writable_only_on_request : forall ops w,
+  defmode w = R -> close_fault w = false -> Forall from_table ops ->
+  forall pre o post, ops = pre ++ o :: post ->
+    wr_handle (fst (run pre w)) = false -> wr_handle (fst (step (fst (run pre w)) o)) = true ->
+    exists m, o = OpenM (Some m) /\ writable m = true.
+Proof.
+  intros ops w D CF FT. apply writable_only_on_request_proof; [exact D | exact CF|].
+  eapply Forall_impl; [|exact FT]. intros o F. unfold op_gated. apply forallb_forall. intros c Ic.
+  apply C10_table_calls_gated. unfold from_table in F. rewrite forallb_forall in F. apply F. exact Ic.
+Qed.
+Print Assumptions C10_writable_only_on_request.
+
+(* READ-ONLY SPANS.  Wherever in a history the handle is not writable, a step that is not an explicit writable re-open leaves the
+   file unchanged and the handle non-writable -- also after earlier writable spans. *)
+Theorem C10_readonly_span_step : forall w o,
+  defmode w = R -> wr_handle w = false -> explicit_reopen o = false -> from_table o ->
+  file (fst (step w o)) = file w /\ wr_handle (fst (step w o)) = false /\ defmode (fst (step w o)) = R.
+Proof.
+  intros w o D W E F. apply readonly_span_step_proof; [exact D | exact W | exact E|].
+  unfold op_gated. apply forallb_forall. intros c Ic. apply C10_table_calls_gated.
+  unfold from_table in F. rewrite forallb_forall in F. apply F. exact Ic.
+Qed.
+Print Assumptions C10_readonly_span_step.
+
+(* non-vacuity: r workspace, writable span through fetch_active_workspace("r+") and through open("r+"), then bare open(): "r" again *)
+Example C10_spans_nonvacuous :
+  let wr := {| c_fn := "H5Writer.update_field"; c_writer := true; c_req := RW; c_fails := false; c_repack := false |} in
+  let ops := [FetchActive RW [wr]; OpenM None; Calls [wr]; Close; OpenM (Some RW); Calls [wr]; Close; OpenM None; Calls [wr]] in
+  let w := w_init (Open R) R false 0 in
+  Forall from_table ops
+  /\ snd (run ops w) = [None; None; Some EReadOnly; None; None; None; None; None; Some EReadOnly]
+  /\ handle_of (fst (run ops w)) = Open R
+  /\ file (fst (run ops w)) = ["H5Writer.update_field"; "H5Writer.save_entity"; "H5Writer.update_field"; "H5Writer.save_entity"].
+Proof. cbv zeta. split; [repeat constructor|]. split; [vm_compute; reflexivity|]. split; vm_compute; reflexivity. Qed.
+
 (* HELPERS.  path2workspace(path): the workspace it opens is read-only while open and closed afterwards, the file is unchanged.
    monitored_directory_copy(entity): when the entity's workspace is closed it is opened "r", the file is unchanged, and it is
    closed again; when it is open (any mode) and the copy issues only reader routines on it, file and handle are unchanged. *)
